@@ -277,7 +277,14 @@ class Encoder:
         h = hashlib.sha256()
         h.update(self.raw(label))
         pre = []
-        for l in reachable(G, label):
+        if n.get("init") and not init:
+            # the init tasks are not attached (yet): what is only reachable through them is not part of the configuration
+            H = {"root": G["root"], "nodes": dict(G["nodes"])}
+            H["nodes"][label] = dict(n, init=[])
+            reach = reachable(H, label)
+        else:
+            reach = reachable(G, label)
+        for l in reach:
             pre.extend(G["nodes"][l].get("pre", []))
         # the implementation collects pre-task *objects* (one entry per distinct object)
         pre = list(dict.fromkeys(pre))
@@ -367,10 +374,16 @@ def signature(G, label=None, full=True, init=True):
     if not full:
         return s
     pre = []
-    for l in reachable(G, label):
+    n = G["nodes"][label]
+    if n.get("init") and not init:
+        H = {"root": G["root"], "nodes": dict(G["nodes"])}
+        H["nodes"][label] = dict(n, init=[])
+        reach = reachable(H, label)
+    else:
+        reach = reachable(G, label)
+    for l in reach:
         pre.extend(G["nodes"][l].get("pre", []))
     pre = list(dict.fromkeys(pre))
-    n = G["nodes"][label]
     return ("full", s, tuple(sorted((sig(p, ()) for p in pre), key=repr)), tuple(sig(i, ()) for i in (n.get("init", []) if init else [])))
 
 
